@@ -478,7 +478,8 @@ impl TreeSpace {
 
         if self.mon.errpaths {
             if let Outcome::Err(e) = out {
-                for (kind, what) in errpath_violations(e, op.path(), op.dest()) {
+                let recursive = matches!(op, Op::RemoveDirAll(_) | Op::CopyDir(..) | Op::MoveDir(..) | Op::Walk(_));
+                for (kind, what) in errpath_violations(e, op.path(), op.dest(), recursive) {
                     vio.push((
                         format!("{}|{}|got=Err({})", head, kind, e.kind.name()),
                         format!("{} on {}: {}", op.show(), cfgl, what),
@@ -488,7 +489,7 @@ impl TreeSpace {
             }
             if let Outcome::Ok(Val::Walk(items)) = out {
                 for e in items.iter().filter_map(|i| i.as_ref().err()) {
-                    for (kind, what) in errpath_violations(e, op.path(), None) {
+                    for (kind, what) in errpath_violations(e, op.path(), None, true) {
                         vio.push((
                             format!("{}|walk-item-{}", head, kind),
                             format!("{} on {}: {}", op.show(), cfgl, what),
@@ -797,7 +798,7 @@ pub fn node_is_lower(cfg: &Cfg, node: &str) -> bool {
                 }
                 cur = &layers[i];
             }
-            Cfg::Alt(inner, _) => cur = inner,
+            Cfg::Alt(inner, _) | Cfg::Sub(inner, _, _) => cur = inner,
             _ => return false,
         }
     }
@@ -1175,7 +1176,10 @@ fn walk_violations<P: PathApi>(root: Option<&P>, s: &Snap) -> Vec<(String, Strin
 
 /// C12: the error's path must be the call's path, its destination, or an ancestor /
 /// descendant of one of them in the caller's namespace; no placeholder.
-pub fn errpath_violations(e: &EInfo, p: &str, q: Option<&str>) -> Vec<(String, String)> {
+/// `recursive`: the operation walks below its path (walk_dir, remove_dir_all, copy_dir, move_dir), so
+/// the entry at which it failed may be a descendant; any other call may only name its own path,
+/// its destination or an ancestor of them (a lookup that failed on the way down).
+pub fn errpath_violations(e: &EInfo, p: &str, q: Option<&str>, recursive: bool) -> Vec<(String, String)> {
     let mut v = vec![];
     const PLACEHOLDER: &str = "PATH NOT FILLED BY VFS LAYER";
     if e.display.contains(PLACEHOLDER)
@@ -1191,7 +1195,7 @@ pub fn errpath_violations(e: &EInfo, p: &str, q: Option<&str>) -> Vec<(String, S
         return v;
     }
     if let Some(ep) = &e.path {
-        let related = |a: &str| is_within(ep, a) || is_within(a, ep);
+        let related = |a: &str| is_within(a, ep) || (recursive && is_within(ep, a));
         let ok = related(p) || q.map(related).unwrap_or(false);
         if !ok {
             v.push((
@@ -1234,7 +1238,7 @@ pub fn observer_err_violations(s: &Snap) -> Vec<(String, String, String)> {
             if e.path.is_none() {
                 continue; // io::Error out of a read handle, not a path operation's error
             }
-            for (kind, what) in errpath_violations(e, p, None) {
+            for (kind, what) in errpath_violations(e, p, None, false) {
                 v.push((
                     format!("{}-{}", m, kind),
                     format!("{}({:?}): {}", m, p, what),
